@@ -318,9 +318,11 @@ def updateTyped {n p m : Nat} (sparse : Bool) (maskP : Array Bool) (s : Solver K
             | none => d5
   let d7 := match xlb with | some _ => { d6 with lb := setupLb cs d6.lb xlb } | none => d6
   let d8 := match xub with | some _ => { d7 with ub := setupUb cs d7.ub xub } | none => d7
-  let (d9, pre1) := Precond.scaleData s.pk sqrtF cs d8 s.pre reuse s.st.precScaleCost s.st.precIter.toNat
-  let kkt1 := KKT.updateData s.be d9 s.kkt P.isSome A.isSome G.isSome
-  { s with data := d9, pre := pre1, kkt := kkt1 }
+  let sc := Precond.scaleData s.pk sqrtF cs d8 s.pre reuse s.st.precScaleCost s.st.precIter.toNat
+  -- fix 4th of its kind in solver.hpp: a new scaling changes every block; the next solve rebuilds the scalings part
+  let all := !reuse
+  let kkt1 := KKT.updateData s.be sc.1 s.kkt (P.isSome || all) (A.isSome || all) (G.isSome || all)
+  { s with data := sc.1, pre := sc.2, kkt := kkt1, kktInitState := false }
 
 def optMat {r c : Nat} (M : Option (RawMat K)) : Option (Mat K r c) := M.map fun M => M.toMat r c
 def optVec {k : Nat} (v : Option (RawVec K)) : Option (Vec K k) := v.map fun v => v.toVec k
